@@ -23,6 +23,7 @@ type clock struct {
 	extra  Hash
 	seq    int
 	firing *Timer // timer whose Fire function is running (scheduler context)
+	fires  int    // number of timers fired so far
 }
 
 func (c *clock) init() { c.extra = HashString("clock") }
@@ -101,6 +102,16 @@ func (t *Timer) Stop() bool {
 // Fired reports whether the timer has fired.
 func (t *Timer) Fired() bool { return t.fired }
 
+// dueBy reports whether a live timer is due at or before virtual time at.
+func (c *clock) dueBy(at int64) bool {
+	for _, t := range c.timers {
+		if !t.stopped && !t.fired && t.At <= at {
+			return true
+		}
+	}
+	return false
+}
+
 func (c *clock) step(e *Exec) {
 	// compact
 	live := c.timers[:0]
@@ -135,6 +146,7 @@ func (c *clock) step(e *Exec) {
 		c.now = t.At
 	}
 	t.fired = true
+	c.fires++
 	c.firing = t
 	if e.Trace {
 		e.Log = append(e.Log, fmt.Sprintf("%5d t=%-9d %-28s fire %s", e.Steps, c.now, "clock", t.Name))
